@@ -72,7 +72,7 @@ Record wf_p (p : lzp) : Prop := mkWf {
   wf_rf : REQ_FINISH <= req_flush p <= match_len_max p;
   wf_ea : 0 <= extra_after p <= 65536;
   wf_ka : keep_after p = extra_after p + match_len_max p;
-  wf_mb : 1 <= mode_before p;
+  wf_mb : 1 <= mode_before p <= 65536;
   wf_dict : 1 <= dict_size p;
   wf_kb : dict_size p + mode_before p <= keep_before p;
   wf_kakb : keep_after p <= keep_before p;
@@ -467,6 +467,9 @@ Section Oracle.
   Lemma logical_pidx e : logical_pos e = g_base e + pidx e.
   Proof. unfold logical_pos, pidx. lia. Qed.
 
+  (* the longest symbol the contract admits *)
+  Definition SYM_MAX (p : lzp) : Z := Z.max (extra_after p + 1) (mode_before p).
+
   Lemma encode_symbol_spec p org ps e tr : wf_p p -> einv p org e tr -> cap e -> 1 <= pidx e ->
     okor (encode_symbol PS parse p ps e tr) (fun r =>
       match r with
@@ -479,7 +482,7 @@ Section Oracle.
           unc_size e1 = unc_size e + (pidx e1 - pidx e) /\
           pending_size (e_lz e) <= pending_size (e_lz e1) /\
           (match_len_max p + extra_after p <= write_pos (e_lz e) - pidx e -> pending_size (e_lz e1) = pending_size (e_lz e)) /\
-          sum_abs tr1 = sum_abs tr
+          sum_abs tr1 = sum_abs tr /\ pidx e1 - pidx e <= SYM_MAX p
       end).
   Proof.
     intros W I Hcap Hp1. pose proof W as [W1 W2 W3 W4 W5 W6 W7 W8 W9 W10].
@@ -531,7 +534,8 @@ Section Oracle.
     split; [unfold quiet, pidx; lia|].
     rewrite Hpi. cbn [e_lz g_base unc_size].
     split; [lia|]. split; [lia|]. split; [exact X1|]. split; [exact X2|]. split; [exact X3|]. split; [exact X6|].
-    split; [lia|]. split; [exact X9|]. split; [exact X10|]. cbn [sum_abs]. exact E3.
+    split; [lia|]. split; [exact X9|]. split; [exact X10|]. split; [cbn [sum_abs]; exact E3|].
+    unfold SYM_MAX. destruct (Z.eq_dec k1 0); [|specialize (Hk4 ltac:(lia))]; lia.
   Qed.
 
   Lemma encode_init_spec p org e tr : wf_p p -> einv p org e tr -> cap e -> read_pos (e_lz e) = -1 ->
@@ -615,7 +619,7 @@ Section Oracle.
     - cbn [enc_loop1].
       eapply okor_bind; [apply (encode_symbol_spec p org ps e tr W I Hcap Hp1)|].
       intros [[[e1 ps1] tr1]|].
-      + intros (I1 & C1 & Q & X1 & X1' & X2 & X3 & X4 & X5 & X6 & X7 & X8 & XA).
+      + intros (I1 & C1 & Q & X1 & X1' & X2 & X3 & X4 & X5 & X6 & X7 & X8 & XA & XS).
         eapply okor_weaken; [apply IH; try assumption; lia|].
         intros [[e2 ps2] tr2] (I2 & C2 & Q2 & Y1 & Y1' & Y2 & Y3 & Y4 & Y5 & Y6 & Y7 & Y8 & Y9 & YA).
         split; [exact I2|]. split; [exact C2|]. split; [exact Q2|]. split; [lia|]. split; [lia|].
@@ -1091,6 +1095,122 @@ Section Oracle.
         * intros (E1 & E2 & E3 & E4 & E5 & E6). subst res. rewrite frev_rev. cbn [rev].
           split; [reflexivity|]. rewrite (lo_cur _ _ _ L).
           split; [exact E2|]. intros _. split; [rewrite E3; exact E2|exact E4].
+  Qed.
+
+
+  (* ---- LZMA2Writer ------------------------------------------------------------------------- *)
+  Definition UNC_BOUND (p : lzp) : Z := LZMA2_UNCOMPRESSED_LIMIT + SYM_MAX p.
+  Definition loop2_cond (e : encd) : bool := (unc_size e <=? LZMA2_UNCOMPRESSED_LIMIT) && negb (rc_full e).
+
+  Lemma cap_of_bound p org e tr : wf_p p -> einv p org e tr -> unc_size e <= UNC_BOUND p -> cap e.
+  Proof.
+    intros W I Hb. pose proof W as [W1 W2 W3 W4 W5 W6 W7 W8 W9 W10].
+    pose proof (ei_lz _ _ _ _ I) as [[? ?] ? ? ? ?]. pose proof (ei_ra _ _ _ _ I).
+    unfold cap, pidx, UNC_BOUND, SYM_MAX, LZMA2_UNCOMPRESSED_LIMIT, U32_MAX, I32_MAX in *. lia.
+  Qed.
+
+  Lemma enc_loop2_spec p org : wf_p p -> forall fuel ps e tr,
+    einv p org e tr -> unc_size e <= UNC_BOUND p -> 1 <= pidx e ->
+    write_pos (e_lz e) - pidx e + 1 <= Z.of_nat fuel ->
+    okor (enc_loop2 PS parse fuel p ps e tr) (fun r =>
+      let '(b, e1, ps1, tr1) := r in
+      einv p org e1 tr1 /\ unc_size e1 <= UNC_BOUND p /\
+      (if b then loop2_cond e1 = false else quiet e1 /\ loop2_cond e1 = true) /\
+      pidx e <= pidx e1 /\ read_pos (e_lz e) <= read_pos (e_lz e1) /\
+      write_pos (e_lz e1) = write_pos (e_lz e) /\ read_limit (e_lz e1) = read_limit (e_lz e) /\
+      finishing (e_lz e1) = finishing (e_lz e) /\ g_base e1 = g_base e /\
+      unc_size e1 = unc_size e + (pidx e1 - pidx e) /\
+      pending_size (e_lz e) <= pending_size (e_lz e1) /\
+      (finishing (e_lz e) = false -> read_limit (e_lz e) <= write_pos (e_lz e) - keep_after p ->
+       pending_size (e_lz e1) = pending_size (e_lz e)) /\
+      (quiet e -> e1 = e /\ ps1 = ps /\ tr1 = tr) /\
+      (~ quiet e -> loop2_cond e = true -> pidx e < pidx e1) /\
+      sum_abs tr1 = sum_abs tr).
+  Proof.
+    intros W. induction fuel as [|f IH]; intros ps e tr I Hub Hp1 Hfuel.
+    - exfalso. pose proof (ei_lz _ _ _ _ I) as [[? ?] ? ? ? ?]. pose proof (ei_ra _ _ _ _ I). unfold pidx in *. lia.
+    - cbn [enc_loop2]. fold (loop2_cond e).
+      destruct (loop2_cond e) eqn:Ec.
+      2:{ cbn [okor]. split; [exact I|]. split; [exact Hub|]. split; [exact Ec|].
+          repeat split; try lia; try reflexivity; try (intros _ X; discriminate). }
+      assert (Hcap : cap e) by (apply (cap_of_bound p org e tr W I Hub)).
+      eapply okor_bind; [apply (encode_symbol_spec p org ps e tr W I Hcap Hp1)|].
+      intros [[[e1 ps1] tr1]|].
+      + intros (I1 & C1 & Q & X1 & X1' & X2 & X3 & X4 & X5 & X6 & X7 & X8 & XA & XS).
+        assert (Hub1 : unc_size e1 <= UNC_BOUND p).
+        { unfold loop2_cond in Ec. apply andb_true_iff in Ec as [Ec1 _]. apply Z.leb_le in Ec1.
+          unfold UNC_BOUND. lia. }
+        eapply okor_weaken; [apply (IH ps1 e1 tr1 I1 Hub1); lia|].
+        intros [[[b e2] ps2] tr2] (I2 & U2 & B2 & Y1 & Y1' & Y2 & Y3 & Y4 & Y5 & Y6 & Y7 & Y8 & Y9 & Y10 & YA).
+        split; [exact I2|]. split; [exact U2|]. split; [exact B2|]. split; [lia|]. split; [lia|].
+        split; [congruence|]. split; [congruence|]. split; [congruence|]. split; [congruence|].
+        split; [lia|]. split; [lia|].
+        split.
+        { intros Hnf Hst. rewrite Y8 by (rewrite ?X2, ?X3, ?X4; assumption).
+          apply X8. pose proof (wf_ka p W). unfold quiet in Q. lia. }
+        split; [intros Q'; contradiction|]. split; [intros _ _; lia|congruence].
+      + cbn [okor]. intros Q.
+        split; [exact I|]. split; [exact Hub|]. split; [split; [exact Q|exact Ec]|].
+        repeat split; try lia; try reflexivity; try (intros NQ; contradiction).
+  Qed.
+
+  Lemma encode_for_lzma2_spec p org ps e tr : wf_p p -> einv p org e tr -> unc_size e <= UNC_BOUND p ->
+    okor (encode_for_lzma2 PS parse p ps e tr) (fun r =>
+      let '(b, e1, ps1, tr1) := r in
+      einv p org e1 tr1 /\ unc_size e1 <= UNC_BOUND p /\
+      (if b then loop2_cond e1 = false else quiet e1) /\
+      pidx e <= pidx e1 /\ read_pos (e_lz e) <= read_pos (e_lz e1) /\
+      write_pos (e_lz e1) = write_pos (e_lz e) /\ read_limit (e_lz e1) = read_limit (e_lz e) /\
+      finishing (e_lz e1) = finishing (e_lz e) /\ g_base e1 = g_base e /\
+      unc_size e1 = unc_size e + (pidx e1 - pidx e) /\
+      (quiet e -> e1 = e /\ ps1 = ps /\ tr1 = tr) /\
+      (~ quiet e -> loop2_cond e = true -> pidx e < pidx e1) /\
+      (loop2_cond e = true -> b = false -> loop2_cond e1 = true) /\
+      (finishing (e_lz e) = false -> read_limit (e_lz e) <= write_pos (e_lz e) - keep_after p ->
+       pending_size (e_lz e) = 0 -> pending_size (e_lz e1) = 0) /\ sum_abs tr1 = sum_abs tr).
+  Proof.
+    intros W I Hub. pose proof W as [W1 W2 W3 W4 W5 W6 W7 W8 W9 W10].
+    pose proof I as [[[Ha Hb] Hc [Hd He] [Hf Hg] Hpb] [Hr1 Hr2] Hmb [Hb1 Hb2] Hh Hdict Hpx Hu HU Hfill Hsym Hchunk Horg].
+    unfold encode_for_lzma2, is_started.
+    destruct (Z.eqb_spec (read_pos (e_lz e)) (-1)) as [Hns|Hst]; cbn [negb].
+    - assert (Hcap : cap e) by (apply (cap_of_bound p org e tr W I Hub)).
+      eapply okor_bind; [apply (encode_init_spec p org e tr W I Hcap Hns)|].
+      intros [[ok e1] tr1]. destruct ok; cbn [negb].
+      + intros (I1 & C1 & P1 & R1 & X2 & X3 & X4 & X5 & X6 & X7 & NQ & XA).
+        assert (Hp0 : pidx e = 0) by (unfold pidx; lia).
+        assert (Hunc : unc_size e = 0).
+        { assert (g_base e = 0) by (destruct Hh; lia). rewrite logical_pidx in Hchunk. lia. }
+        assert (Hub1 : unc_size e1 <= UNC_BOUND p).
+        { rewrite X6. unfold UNC_BOUND, SYM_MAX, LZMA2_UNCOMPRESSED_LIMIT. lia. }
+        eapply okor_weaken.
+        { apply (enc_loop2_spec p org W _ ps e1 tr1 I1 Hub1); try lia.
+          unfold sym_fuel. pose proof (ei_lz _ _ _ _ I1) as [[? ?] ? ? ? ?]. lia. }
+        intros [[[b e2] ps2] tr2] (I2 & U2 & B2 & Y1 & Y1' & Y2 & Y3 & Y4 & Y5 & Y6 & Y7 & Y8 & Y9 & Y10 & YA).
+        split; [exact I2|]. split; [exact U2|].
+        split; [destruct b; [exact B2|exact (proj1 B2)]|].
+        split; [lia|]. split; [lia|].
+        split; [congruence|]. split; [congruence|]. split; [congruence|]. split; [congruence|].
+        split; [lia|].
+        split; [intros Q; contradiction|].
+        split; [intros _ _; lia|].
+        split; [intros _ Eb; subst b; exact (proj2 B2)|].
+        split; [|congruence].
+        intros Hnf Hs Hp. rewrite Y8; [apply X7; unfold quiet, pidx in NQ; lia|congruence|congruence].
+      + intros (E1 & E2 & Q). subst e1 tr1. cbn [okor].
+        split; [exact I|]. split; [exact Hub|]. split; [exact Q|].
+        repeat split; try lia; auto; try (intros NQ; contradiction).
+    - assert (Hp1 : 1 <= pidx e) by (destruct Hpx; [lia|assumption]).
+      eapply okor_weaken.
+      { apply (enc_loop2_spec p org W _ ps e tr I Hub Hp1). unfold sym_fuel, pidx in *. lia. }
+      intros [[[b e2] ps2] tr2] (I2 & U2 & B2 & Y1 & Y1' & Y2 & Y3 & Y4 & Y5 & Y6 & Y7 & Y8 & Y9 & Y10 & YA).
+      split; [exact I2|]. split; [exact U2|].
+      split; [destruct b; [exact B2|exact (proj1 B2)]|].
+      split; [lia|]. split; [lia|].
+      split; [exact Y2|]. split; [exact Y3|]. split; [exact Y4|]. split; [exact Y5|]. split; [exact Y6|].
+      split; [exact Y9|]. split; [exact Y10|].
+      split; [intros _ Eb; subst b; exact (proj2 B2)|].
+      split; [|exact YA].
+      intros Hnf Hs Hp. rewrite Y8; assumption.
   Qed.
 
 End Oracle.
